@@ -762,4 +762,5 @@ func (c14) Run(x *Exec, scn any) {
 		}
 	}
 	o.Reached = x.Sim.Probes["boundary_crossed"] > 0 && expiredOwn > 0 && other > 0
+	o.ScnDistinct = true
 }
